@@ -19,7 +19,7 @@ TRUSTED = ['Lean 4.33 kernel + Mathlib v4.33 (axioms: propext, Classical.choice,
            'modelled, not verified: scipy Rotation.from_quat (modelled as normalise + standard quaternion formula and compared), np.linalg.lstsq in tm//tm (modelled as A·inv(B))',
            'theorems over ℝ: rounding outside; the history theorem carries the side condition that no matrix handed to TMtoTAA has rotation angle strictly inside (0,1e-6) — inside the band coherence holds only to 1e-6, which the falsifier measures against the 5e-6 allowance']
 ASSUMPTIONS = ['objects built from valid poses (finite, rigid matrices, non-zero quaternions)']
-RULE = ('operation histories over the property alphabet; exhaustive over a fixed list of concrete ops (palette angles 0, 1e-7, 1, pi-1e-3, 2pi+0.5) up to a fixed length from several start pairs, '
+RULE = ('operation histories over the property alphabet; exhaustive over a fixed list of concrete ops (palette angles 0, 1e-7, 1, pi-1e-3, +-(2pi+0.5)) up to a fixed length from several start pairs, '
         'then random histories up to length 12; distinct = distinct histories; non-trivial = at least one op goes through TMtoTAA or changes a rotation entry')
 SAMPLED = ['coherence inside the 1e-6 cut-off band (|TM - exp(TAA)| <= 1e-6 there): measured on the implementation, bound not yet a theorem']
 
@@ -49,6 +49,7 @@ def atomic_ops():
     ops += [('ctor6a', 1, [0.0, 1.0, 0.0, 1.0, math.pi - 1e-3, 1e-7]), ('ctor3', 1, [1e-7, 1.0, 2 * math.pi + 0.5]), ('ctor3a', 0, [0.0, math.pi - 1e-3, 0.0]),
             ('ctor7', [1.0, 2.0, 3.0] + quat(2, 1.0)), ('ctor7a', [0.0, 0.0, 1.0] + quat(0, math.pi - 1e-3)), ('ctor7', [0.0, 0.0, 0.0] + quat(1, 1e-7)),
             ('ctorCopy', 0), ('ctorCopyArr', 1), ('sTAA', 0, [0.0, 1.0, 2.0, 1e-7, 0.0, 1.0]), ('sTAA', 1, [1.0, 0.0, 0.0, 0.0, 2 * math.pi + 0.5, 0.0]),
+            ('sTAA', 0, [0.0, 0.0, 1.0, -(2 * math.pi + 0.5), 1.0, 0.0]), ('ctor6', 0, [1.0, 0.0, 0.0, 0.3, -(2 * math.pi + 0.5), -1.0]), ('set', 1, 5, -(2 * math.pi + 0.5)),
             ('setitem', 1, 5, 1.0), ('set', 0, 0, 1.5), ('setPos', 0, [1.0, -1.0, 0.5], 1), ('setPos', 1, [0.0, 2.0, 0.0], 0), ('setRot', 0, [1.0, 1.0, 0.0], 1),
             ('setQuat', 0, quat(0, 1.0)), ('setQuat', 1, [0.5, -0.5, 0.5, 0.5]), ('setQuat', 1, [0.0, 0.0, 2.0 * math.sin(5e-8), 2.0 * math.cos(5e-8)]),
             ('angleMod', 0), ('angleMod', 1), ('copy', 0), ('inv', 0), ('inv', 1), ('matmul', 0, 1), ('matmul', 1, 0), ('matmul', 1, 1),
@@ -59,12 +60,13 @@ def atomic_ops():
 
 STARTS = [[('ctor6', 0, [1.0, 2.0, 3.0, 0.0, 0.0, 1.0]), ('ctor6', 0, [0.0, -1.0, 0.5, 0.0, 2 * math.pi + 0.5, 0.0])],
           [('ctor6', 0, [0.0, 0.0, 0.0, 1e-7, 0.0, 0.0]), ('ctor6', 0, [1.0, 0.0, 0.0, math.pi - 1e-3, 0.0, 0.0])],
-          [('ctor6', 1, [1.0, 1.0, 1.0, 1.0, 1.0, 1.0]), ('ctor6', 0, [0.0, 0.0, 2.0, -0.4, 0.3, 2.0])]]
+          [('ctor6', 1, [1.0, 1.0, 1.0, 1.0, 1.0, 1.0]), ('ctor6', 0, [0.0, 0.0, 2.0, -0.4, 0.3, 2.0])],
+          [('ctor6', 0, [0.0, 1.0, 0.0, -(2 * math.pi + 0.5), 1.0, 0.0]), ('ctor6', 0, [1.0, 0.0, 0.0, 0.2, -0.1, -(2 * math.pi + 0.25)])]]
 
 
 def rand_op(rnd, n):
     i = rnd.randrange(n); j = rnd.randrange(n)
-    a = lambda: rnd.choice(PAL + [rnd.uniform(-3, 3), rnd.uniform(0, 7)])
+    a = lambda: rnd.choice(PAL + [rnd.uniform(-3, 3), rnd.uniform(0, 7), rnd.uniform(-7, -6.3), -(2 * math.pi + 0.5)])
     p = lambda: [rnd.choice([0.0, 1.0, -2.5, rnd.uniform(-10, 10)]) for _ in range(3)]
     rv = lambda: list(G.axis(rnd) * a())
     k = rnd.choice(['ctor6', 'ctor6a', 'ctor6r', 'ctor3', 'ctor3r', 'ctor7', 'ctorTM', 'ctorCopy', 'sTM', 'sTAA', 'set', 'setitem', 'setPos', 'setRot', 'setQuat',
@@ -195,7 +197,9 @@ def _worker(hists):
             Rm = TM2[:3, :3]
             ang = math.acos(max(-1.0, min(1.0, (np.trace(Rm) - 1) / 2)))
             amp = 1.0 / max(1e-8, (math.pi - ang)) ** 2
-            loose = max(loose, 1e-13 * amp)
+            # ... and every later operation carries the difference on, scaled by the size of the operands
+            scale = max(1.0, float(np.max(np.abs(TM2))))
+            loose = min(1e-4, loose * 2.0 * scale + 1e-13 * amp)
             ok = idx == i2 and G.close(TM, TM2, 1e-9 + loose, 1e-9) and G.close(TAA, TAA2, 1e-9 + loose, 1e-9)
             if not ok:
                 if near_branch(TM2) or near_branch(TM):
